@@ -19,19 +19,21 @@ LEVEL = "proof"
 EXTRA_PROPS = ["QuantemModel.Props.C14Ext"]   # growth 6: entries of a skip argument as a set, path-by-path absence, Ptychography.save in histories
 MANIFEST_ENTRY = {
     "category": "proof",
-    "text": "Lean 4 theorems over the serializer model with skip lists. One statement covers all clauses (`skip_general`): for every isinstance relation that contains the loader's exact-type match (the generator's universe, or the one with abstract base classes whose instances are virtual subclasses, and `object`), names and types given at save time and names given at load time, the loaded object is exactly the graph with every attribute removed, at every attribute-nested level, whose name is listed at either time or which is an instance of a listed type; the recorded lists are what the loader merges in, everything else loads as without skipping. Corollaries: load-time = save-time names also next to types (`skip_load_eq_save_general`), both = once, order/multiplicity irrelevant. The `skip` argument forms (bare name / bare type / sequence, entries that are neither) and the list Ptychography.save composes are modelled (`normSkip_*`, `ptychoSkip_spec`). Exception safety: a save raises part-way exactly when the stripped graph still holds an unpicklable value (`raises_iff_stripped`), a raising or rejected call changes no target (`sstep_raised_noop`), and over EVERY history of save/load calls on live objects (failing calls before and in between included) a load returns the stripped graph of the last completed save (`skip_history`). The round-1..4 theorems (names / types / load=save / recorded lists / absent names) are kept. Tied to the code by differential runs: generated attribute-nested graphs with random name/type lists in the call shapes save / load / both / mixed on both stores, classes that themselves provide names, abstract-base-class type lists, unpicklable attributes, load-time type lists, call histories with rejected and failing saves, the recorded skip lists and the keys written per object group (stored tree) as an internal stage, Ptychography.save histories on one live object; the clauses are evaluated on the real results with Python's own isinstance on the live object as oracle.",
-    "note": "Trusted: as C01; isinstance is modelled by a finite relation on the generator's type universe (base classes + 9 abstract base classes), cross-checked against Python's isinstance on every case; persisted type names must be importable top-level classes (load resolves them with __import__). Measured only (correspondence, no theorem): load-time TYPE lists (the property does not state them; `load_rng_type_counterexample` records where the base model differed from the code), the stored tree / recorded lists, that the caller's skip argument is not modified in place, Ptychography.save's device move and _dataset_metadata bookkeeping. A change that writes skipped data into the file but hides it again through the recorded lists at load is reported as a broken tie without a failing input (the property speaks about loaded objects only).",
+    "text": "Lean 4 theorems over the serializer model with skip lists. One statement covers all clauses (`skip_general`): for every isinstance relation that contains the loader's exact-type match (the generator's universe, or the one with abstract base classes whose instances are virtual subclasses, and `object`), names and types given at save time and names given at load time, the loaded object is exactly the graph with every attribute removed, at every attribute-nested level, whose name is listed at either time or which is an instance of a listed type; the recorded lists are what the loader merges in, everything else loads as without skipping. Corollaries: load-time = save-time names also next to types (`skip_load_eq_save_general`), both = once, order/multiplicity irrelevant. The `skip` argument forms (bare name / bare type / sequence, entries that are neither) and the list Ptychography.save composes are modelled (`normSkip_*`, `ptychoSkip_spec`). Exception safety: a save raises part-way exactly when the stripped graph still holds an unpicklable value (`raises_iff_stripped`), a raising or rejected call changes no target (`sstep_raised_noop`), and over EVERY history of save/load calls on live objects (failing calls before and in between included) a load returns the stripped graph of the last completed save (`skip_history`). The round-1..4 theorems (names / types / load=save / recorded lists / absent names) are kept. Growth 6 (Props/C14Ext): only the SET of entries of a skip argument matters, at save and at load time, names and types (`stripAttrsG_congr2`, `skip_form_irrelevant`: list / tuple / other sequences, order, repetitions, junk entries); absence path by path (`strip_atPath`, `strip_name_absent_every_level`: under no attribute path ending in a listed name is anything found, however deep and whether or not the objects above carry the name; `strip_unlisted_path_kept`: a path without listed steps is untouched by the name list); `Ptychography.save` inside every history (`ptycho_history`: the caller's entries of THAT call, plus `_dset`/`dset` iff that call had save_raw_data=False); classes built with attrs (`__attrs_attrs__` branch: only declared fields are items — `viewA`, `strip_view_comm`, `skip_general_attrs`). Tied to the code by differential runs: generated attribute-nested graphs with random name/type lists in the call shapes save / load / both / mixed on both stores, classes that themselves provide names, abstract-base-class type lists, unpicklable attributes, load-time type lists, call histories with rejected and failing saves, the recorded skip lists and the keys written per object group (stored tree) as an internal stage, Ptychography.save histories on one live object (the caller's list object re-used for the next save with the other save_raw_data, recorded lists of both files compared), a fixed round-6 block (names two and three levels below objects that lack them, names that are prefixes of each other, bool under int / np.float64 under float, 12-entry lists whose hits are the last entries, 12-element containers, Sequence / list-subclass / deque arguments, one caller-owned list object passed to consecutive saves and loads and edited by the caller in between, two live objects saved alternately, attrs-class objects at three levels); the clauses are evaluated on the real results with Python's own isinstance on the live object as oracle.",
+    "note": "Trusted: as C01; isinstance is modelled by a finite relation on the generator's type universe (base classes + 9 abstract base classes), cross-checked against Python's isinstance on every case; persisted type names must be importable top-level classes (load resolves them with __import__). Measured only (correspondence, no theorem): load-time TYPE lists (the property does not state them; `load_rng_type_counterexample` records where the base model differed from the code), the stored tree / recorded lists, that the caller's skip argument is not modified in place (and that a list object the caller passes again, edited or not, is read afresh by every call), the item order of attrs classes (field order in the code, dictionary order in the model; compared up to key order), an attrs field that is not set (getattr raises AttributeError; not drawn), Ptychography.save's device move and _dataset_metadata bookkeeping. A change that writes skipped data into the file but hides it again through the recorded lists at load is reported as a broken tie without a failing input (the property speaks about loaded objects only).",
     "technique": "Lean 4 proof (structural induction, invariant over call histories) + model-vs-implementation correspondence",
 }
 RULE = ("attribute-nested object graphs (objects only reached through attributes) with random subsets of attribute names (present at any "
         "depth, absent, or provided by the class) and random type lists (concrete, abstract base classes, object), in the call shapes save / load / both / mixed; "
         "one evaluation = one save+load, or one call of a history; distinct non-trivial = distinct (call shape, #names hit, types, depth, multiset of kinds) "
-        "with at least one attribute actually removed, plus distinct (history length, outcome pattern) of call histories")
+        "with at least one attribute actually removed, plus distinct (history length, outcome pattern) of call histories; the round-6 fixed block (38 cases: deep / prefix / "
+        "threshold / argument-form / re-used list / attrs) is independent of the seed")
 TRUSTED = ["as C01", "finite isinstance relation on the generator's type universe (cross-checked against Python's isinstance on the live objects every run)",
            "an attribute that cannot be pickled is represented by one token (`unpicklable`); which exception type dill raises is compared by name only"]
 ASSUMPTIONS = ["objects nested inside lists/dicts are outside the claim (the property quantifies over attribute-nested objects)",
                "objects that are both torch.nn.Module and AutoSerialize are outside the model (recorded finding hybrid-module-autoserialize-skip)",
-               "skip arguments are re-iterable collections (list / tuple) or a bare str / type, as the signature declares; one-shot iterators are not drawn"]
+               "skip arguments are re-iterable sequences (list / tuple / another collections.abc.Sequence / list subclass / deque) or a bare str / type, as the signature declares; one-shot iterators and sets are not drawn",
+               "attrs classes: dict-based (slots=False), every declared field set, no __attrs_post_init__ (a post-init hook may legitimately re-create attributes)"]
 EXPLANATION = "see MANIFEST level text"
 
 TYPES = {
@@ -717,6 +719,14 @@ def fixed_block_g6(ctx, drv):
                ld("p1", seq([])), ld("p3", seq(["keep"]))]
         run_history(ctx, drv, [t1], ops, store, f"g6_{k}")
         k += 1
+    # TWO live objects of the same classes saved alternately with different lists (one caller-owned list object each),
+    # loaded in crossing order: nothing of one object's call may leak into the other's
+    sv2 = lambda o, path, skip, ow=False: {"k": "save", "obj": o, "path": path, "overwrite": ow, "bad_level": False, "skip": skip, "pyobj": f"L{o}"}  # noqa: E731
+    ld2 = lambda path, skip: {"k": "load", "path": path, "skip": skip}   # noqa: E731
+    run_history(ctx, drv, [t1, t2], [sv2(0, "p0", seq(["raw"])), sv2(1, "p1", seq(["we"], ["float"])), ld2("p0", seq([])), ld2("p1", seq([])),
+                                     sv2(1, "p2", seq(["we"], ["float"])), sv2(0, "p3", seq(["raw"])), sv2(0, "p0", seq([]), True),
+                                     ld2("p2", seq(["raw"])), ld2("p3", seq(["we"])), ld2("p0", seq([])), ld2("p1", seq(["n"]))], "dir", f"g6_{k}")
+    k += 1
     # attrs classes (`__attrs_attrs__` branch of _recursive_save / _recursive_load): only declared fields are items
     if cx.AT is None:
         ctx.extra["attrs-stream"] = "skipped: the attrs package is not importable"
